@@ -60,6 +60,12 @@ Definition wilkinson_mu (dend1 dend e : T o) : T o :=
     else mu - e2 / (td + (if ltb o (zero o) td then h else - h))
   else mu.
 
+(* "do T = G' T G" on the three entries of the (k, k+1) window: new diag[k], diag[k+1], subdiag[k] *)
+Definition rot_update (c s dk dk1 sk : T o) : T o * T o * T o :=
+  let sdk := s * dk + c * sk in
+  let dkp1 := s * sk + c * dk1 in
+  (c * (c * dk - s * sk) - s * (c * sk - s * dk1), s * sdk + c * dkp1, c * sdk - s * dkp1).
+
 (* the chase: k runs from start while k < end and z != 0 *)
 Fixpoint chase (fuel : nat) (start end_ k : nat) (x z : T o) (d sd : vec) (Q : mat) : vec * vec * mat :=
   match fuel with
@@ -68,11 +74,10 @@ Fixpoint chase (fuel : nat) (start end_ k : nat) (x z : T o) (d sd : vec) (Q : m
     if (Nat.ltb k end_ && nz z)%bool then
       let '(c, s) := make_givens x z in
       let dk := vnth o d k in let dk1 := vnth o d (k + 1) in let sk := vnth o sd k in
-      let sdk := s * dk + c * sk in
-      let dkp1 := s * sk + c * dk1 in
-      let d := vset o d k (c * (c * dk - s * sk) - s * (c * sk - s * dk1)) in
-      let d := vset o d (k + 1) (s * sdk + c * dkp1) in
-      let sd := vset o sd k (c * sdk - s * dkp1) in
+      let '(ndk, ndk1, nsk) := rot_update c s dk dk1 sk in
+      let d := vset o d k ndk in
+      let d := vset o d (k + 1) ndk1 in
+      let sd := vset o sd k nsk in
       let sd := if Nat.ltb start k then vset o sd (k - 1) (c * vnth o sd (k - 1) - s * z) else sd in
       let x := vnth o sd k in
       let '(z, sd) := if Nat.ltb k (end_ - 1) then ((- s) * vnth o sd (k + 1), vset o sd (k + 1) (c * vnth o sd (k + 1))) else (z, sd) in
